@@ -282,10 +282,29 @@ func runC20(t *testing.T, seed uint64, m *Mask) *Report {
 			a.SetID("previous-user-id")
 			a.Swap().Store("secret", "of the previous user")
 			_ = cb
-			a.Close()
+			sample = "socket"
+			if r.Chance(0.5) {
+				// released by several closers at once (the owner shuts down while a reader that saw EOF closes
+				// too): the object must go back to the pool once, or two later users would share it
+				sample = "socket, concurrent close"
+				closers := &world.Cnt{}
+				for k := 2 + r.Intn(2); k > 0; k-- {
+					closers.Inc()
+					simrt.GoNamed("closer", func() { a.Close(); closers.Dec() })
+				}
+				simrt.WaitCond(func() bool { return closers.Get() == 0 })
+			} else {
+				a.Close()
+			}
 			c2, _ := e.Net.Pair()
 			b := socket.GetSocket(c2, socket.RawProtoFunc)
-			sample = "socket"
+			c3, _ := e.Net.Pair()
+			other := socket.GetSocket(c3, socket.RawProtoFunc)
+			if other == b {
+				e.Fail("C20/recycled-socket-handed-out-twice", "two GetSocket calls for two connections returned the same Socket (%s)", sample)
+				return
+			}
+			defer other.Close()
 			if a != b {
 				e.Fail("infra-pool-not-lifo", "the pool did not return the released Socket")
 				return
